@@ -218,6 +218,13 @@ func TestC04RealClock(t *testing.T) {
 				}
 			}
 			sk.mu.Unlock()
+			sk.mu.Lock()
+			empty := sk.got["err"]
+			sk.mu.Unlock()
+			if empty > 0 {
+				// every future of this unit completes with a reply or with an error (timeout, Close, dead asker)
+				fail("C04/pipe|empty-result|real-clock", "the forwarder received %d PipeResult that carry neither the reply nor an error: PipeTo raced the completion on another thread and forwarded a result that was not written yet", empty)
+			}
 			if dup != "" {
 				fail("C04/pipe|exactly-once|real-clock", "the forwarder received the PipeResult of reply %s more than once", dup)
 			}
